@@ -15,6 +15,7 @@ import (
 	"math/rand"
 	"os"
 	"runtime"
+	"sort"
 	"strconv"
 	"strings"
 	"testing"
@@ -958,6 +959,53 @@ func (c *c18) pubCase() {
 		startS = strconv.FormatInt(s, 10)
 	}
 
+	c.runPub(&c18Pub{
+		inputs: inputs, iface: iface, nReq: nReq, auxOpt: auxOpt, auxS: auxS,
+		est: est, estS: estS, height0: height0, budget: budget, deadline: deadline,
+		deadlineDelta: deadlineDelta, delivery: delivery, script: script, dust: dust,
+		maxRate: maxRate, relay: relay, startOpt: startOpt, startS: startS,
+		wb: wb, wtx: wtx, ltLines: ltLines,
+	})
+}
+
+// c18Pub is a fully specified publisher case.
+type c18Pub struct {
+	inputs        []*c18Input
+	iface         []input.Input
+	nReq          int
+	auxOpt        fn.Option[AuxSweeper]
+	auxS          string
+	est           *c18Est
+	estS          string
+	height0       int32
+	budget        int64
+	deadline      int32
+	deadlineDelta int32
+	delivery      lnwallet.AddrWithKey
+	script        string
+	dust          int64
+	maxRate       int64
+	relay         int64
+	startOpt      fn.Option[chainfee.SatPerKWeight]
+	startS        string
+	wb            lntypes.WeightUnit
+	wtx           int64
+	ltLines       []string
+	// extra header fields (cases derived from an aggregator case)
+	extraHdr string
+	// no scripted mempool / publish failures
+	calm bool
+}
+
+// runPub drives the real TxPublisher for one request: initial broadcast and
+// one fee bump per (possibly skipped) block.
+func (c *c18) runPub(p *c18Pub) {
+	inputs, iface, nReq, auxOpt, auxS := p.inputs, p.iface, p.nReq, p.auxOpt, p.auxS
+	est, estS, height0, budget, deadline := p.est, p.estS, p.height0, p.budget, p.deadline
+	deadlineDelta, delivery, script, dust := p.deadlineDelta, p.delivery, p.script, p.dust
+	maxRate, relay, startOpt, startS := p.maxRate, p.relay, p.startOpt, p.startS
+	wb, wtx, ltLines := p.wb, p.wtx, p.ltLines
+
 	wallet := &c18Wallet{h: c, inputs: inputs, nReq: nReq,
 		hasAux: auxS != "none", backend: "bitcoind"}
 	tp := NewTxPublisher(TxPublisherConfig{
@@ -978,8 +1026,8 @@ func (c *c18) pubCase() {
 	}
 
 	c.pf("CASE %d kind=pub budget=%d maxrate=%d deadline=%d start=%s est=%s relay=%d "+
-		"script=%s dust=%d aux=%s wb=%d wtx=%d reqscript=p2wsh auxscript=p2tr", c.n, budget,
-		maxRate, deadline, startS, estS, relay, script, dust, auxS, int64(wb), wtx)
+		"script=%s dust=%d aux=%s wb=%d wtx=%d reqscript=p2wsh auxscript=p2tr%s", c.n, budget,
+		maxRate, deadline, startS, estS, relay, script, dust, auxS, int64(wb), wtx, p.extraHdr)
 	for _, l := range ltLines {
 		c.pf("%s", l)
 	}
@@ -995,8 +1043,11 @@ func (c *c18) pubCase() {
 	tp.subscriberChans.Store(rec.requestID, sub)
 
 	wallet.mp = c.randAnswers(30)
+	if p.calm {
+		wallet.mp = nil
+	}
 	wallet.pub = nil
-	if c.rng.Intn(10) == 0 {
+	if c.rng.Intn(10) == 0 && !p.calm {
 		wallet.pub = []string{[]string{"insuff", "other", "mempoolfee"}[c.rng.Intn(3)]}
 	}
 	c.pf("op init height=%d mp=%s pub=%s", height0, c18Join(wallet.mp),
@@ -1034,8 +1085,11 @@ func (c *c18) pubCase() {
 		h += step
 		tp.currentHeight.Store(h)
 		wallet.mp = c.randAnswers(12)
+		if p.calm {
+			wallet.mp = nil
+		}
 		wallet.pub = nil
-		if c.rng.Intn(15) == 0 {
+		if c.rng.Intn(15) == 0 && !p.calm {
 			wallet.pub = []string{[]string{"insuff", "other", "mempoolfee"}[c.rng.Intn(3)]}
 		}
 		c.pf("op bump height=%d mp=%s pub=%s", h, c18Join(wallet.mp),
@@ -1052,6 +1106,217 @@ func (c *c18) pubCase() {
 		c.resLine(tp, rec, sub)
 	}
 	c.pf("END")
+}
+
+// ---------------------------------------------------------------------------
+// (iii) BudgetAggregator + BudgetInputSet -> BumpRequest -> TxPublisher
+
+// aggCase hands random pending inputs (budgets, deadlines, optional
+// per-input StartingFeeRate = rate already offered for that input, locktimes,
+// forced flag, required outputs) to the real BudgetAggregator, prints the
+// resulting input sets, and then builds the BumpRequest of every set exactly
+// as UtxoSweeper.sweep does and runs the publisher on it.
+func (c *c18) aggCase() {
+	c.n++
+	aggID := c.n
+	relay := c.pick(253, 253, 1000)
+	maxInputs := uint32(c.pick(2, 3, 4, 100, 100, 100))
+	height0 := int32(100 + c.rng.Intn(1000))
+	n := 2 + c.rng.Intn(7)
+
+	dls := []int32{height0 + int32(2+c.rng.Intn(30))}
+	for len(dls) < 1+c.rng.Intn(3) {
+		dls = append(dls, height0+int32(2+c.rng.Intn(1200)))
+	}
+	used := map[int64]bool{}
+	var ltUsed uint32
+	type pin struct {
+		inp *c18Input
+		si  *SweeperInput
+	}
+	var pins []pin
+	inputsMap := make(InputsMap)
+	est := &c18Est{relay: chainfee.SatPerKWeight(relay)}
+	est.rate = chainfee.SatPerKWeight(relay + c.rng.Int63n(2000))
+
+	c.pf("CASE %d kind=agg relay=%d maxinputs=%d height=%d", aggID, relay, maxInputs, height0)
+	for k := 0; k < n; k++ {
+		var h chainhash.Hash
+		c.rng.Read(h[:])
+		v := 200000 + c.rng.Int63n(5000000)
+		inp := &c18Input{
+			op: wire.OutPoint{Hash: h, Index: uint32(k)},
+			sd: input.SignDescriptor{Output: &wire.TxOut{Value: v, PkScript: c18P2WSH}},
+			wt: c18WitnessTypes[c.rng.Intn(len(c18WitnessTypes))],
+		}
+		// pairwise different budgets (sort.Slice is not stable)
+		budget := 2000 + c.rng.Int63n(60000)
+		if c.rng.Intn(10) == 0 {
+			budget = c.pick(0, 1, 50, 100, 150, 200, 400)
+		}
+		for used[budget] {
+			budget++
+		}
+		used[budget] = true
+		dl := dls[c.rng.Intn(len(dls))]
+		params := Params{
+			Budget:         btcutil.Amount(budget),
+			DeadlineHeight: fn.Some(dl),
+			Immediate:      c.rng.Intn(8) == 0,
+		}
+		startS := "none"
+		if c.rng.Intn(2) == 0 {
+			// the rate already offered for this input by an earlier
+			// (failed / replaced / user-bumped) sweep
+			r := relay + c.rng.Int63n(6000)
+			if c.rng.Intn(12) == 0 {
+				r = c.pick(0, 1, 100000, 250001)
+			}
+			params.StartingFeeRate = fn.Some(chainfee.SatPerKWeight(r))
+			startS = strconv.FormatInt(r, 10)
+		}
+		ltS := "none"
+		if c.rng.Intn(6) == 0 {
+			lt := uint32(height0) - uint32(c.rng.Intn(40))
+			if ltUsed != 0 && c.rng.Intn(2) == 0 {
+				lt = ltUsed
+			}
+			inp.lt, inp.hasLt = lt, true
+			ltUsed = lt
+			ltS = strconv.FormatUint(uint64(lt), 10)
+		}
+		reqS, reqDust := "none", 0
+		if c.rng.Intn(8) == 0 {
+			rv := v - c.pick(0, 1, 100)
+			if c.rng.Intn(3) == 0 {
+				rv = c.pick(329, 330, 100)
+			}
+			inp.req = &wire.TxOut{Value: rv, PkScript: c18P2WSH}
+			inp.wt = input.HtlcOfferedTimeoutSecondLevel
+			reqS = strconv.FormatInt(rv, 10)
+			if isDustOutput(inp.req) {
+				reqDust = 1
+			}
+		}
+		wsize, _, err := inp.wt.SizeUpperBound()
+		if err != nil {
+			continue
+		}
+		wu := lntypes.VByte(input.InputSize).ToWU() + wsize
+		si := &SweeperInput{Input: inp, params: params, DeadlineHeight: dl}
+		inputsMap[inp.op] = si
+		pins = append(pins, pin{inp, si})
+		c.pf("pin idx=%d value=%d budget=%d deadline=%d start=%s immediate=%v lt=%s req=%s "+
+			"reqdust=%d wu=%d", len(pins)-1, v, budget, dl, startS, params.Immediate, ltS,
+			reqS, reqDust, int64(wu))
+	}
+	idxOf := func(op wire.OutPoint) int {
+		for k, p := range pins {
+			if p.inp.op == op {
+				return k
+			}
+		}
+		return -1
+	}
+
+	agg := NewBudgetAggregator(est, maxInputs, fn.None[AuxSweeper]())
+	var sets []InputSet
+	func() {
+		defer func() {
+			if r := recover(); r != nil {
+				c.pf("panic %v", r)
+			}
+		}()
+		sets = agg.ClusterInputs(inputsMap)
+	}()
+	type setRow struct {
+		key string
+		set InputSet
+	}
+	var rows []setRow
+	for _, set := range sets {
+		var ids []string
+		for _, in := range set.Inputs() {
+			ids = append(ids, fmt.Sprintf("%03d", idxOf(in.OutPoint())))
+		}
+		rows = append(rows, setRow{strings.Join(ids, ","), set})
+	}
+	sort.Slice(rows, func(i, j int) bool { return rows[i].key < rows[j].key })
+	for _, r := range rows {
+		var ids []string
+		for _, in := range r.set.Inputs() {
+			ids = append(ids, strconv.Itoa(idxOf(in.OutPoint())))
+		}
+		st := "none"
+		r.set.StartingFeeRate().WhenSome(func(x chainfee.SatPerKWeight) {
+			st = strconv.FormatInt(int64(x), 10)
+		})
+		c.pf("set deadline=%d budget=%d start=%s immediate=%v needwallet=%v inputs=%s",
+			r.set.DeadlineHeight(), int64(r.set.Budget()), st, r.set.Immediate(),
+			r.set.NeedWalletInput(), c18Join(ids))
+	}
+	c.pf("END")
+
+	// every set becomes a BumpRequest as in UtxoSweeper.sweep
+	for k, r := range rows {
+		if k >= 3 {
+			break
+		}
+		var (
+			inputs  []*c18Input
+			iface   []input.Input
+			ltLines []string
+			nReq    int
+			prevMax int64
+		)
+		for _, in := range r.set.Inputs() {
+			ci := in.(*c18Input)
+			inputs = append(inputs, ci)
+			iface = append(iface, in)
+			reqS, ltS := "none", "none"
+			if ci.req != nil {
+				reqS = strconv.FormatInt(ci.req.Value, 10)
+				nReq++
+			}
+			if ci.hasLt {
+				ltS = strconv.FormatUint(uint64(ci.lt), 10)
+			}
+			ltLines = append(ltLines, fmt.Sprintf("in idx=%d value=%d req=%s lt=%s",
+				len(inputs)-1, ci.sd.Output.Value, reqS, ltS))
+			// the highest rate already offered for a member, from the
+			// harness's own table (not from the set)
+			pins[idxOf(ci.op)].si.params.StartingFeeRate.WhenSome(
+				func(x chainfee.SatPerKWeight) {
+					if int64(x) > prevMax {
+						prevMax = int64(x)
+					}
+				})
+		}
+		delivery := lnwallet.AddrWithKey{DeliveryAddress: c18P2TR}
+		wb, err := calcSweepTxWeight(iface, [][]byte{delivery.DeliveryAddress})
+		if err != nil {
+			continue
+		}
+		startOpt := r.set.StartingFeeRate()
+		startS := "none"
+		startOpt.WhenSome(func(x chainfee.SatPerKWeight) {
+			startS = strconv.FormatInt(int64(x), 10)
+		})
+		c.n++
+		c.runPub(&c18Pub{
+			inputs: inputs, iface: iface, nReq: nReq,
+			auxOpt: fn.None[AuxSweeper](), auxS: "none",
+			est: &c18Est{relay: est.relay, rate: est.rate},
+			estS: strconv.FormatInt(int64(est.rate), 10), height0: height0,
+			budget: int64(r.set.Budget()), deadline: r.set.DeadlineHeight(),
+			deadlineDelta: r.set.DeadlineHeight() - height0, delivery: delivery,
+			script: "p2tr", dust: int64(lnwallet.DustLimitForSize(len(c18P2TR))),
+			maxRate: 250000, relay: relay, startOpt: startOpt, startS: startS,
+			wb: wb, wtx: int64(wb), ltLines: ltLines,
+			extraHdr: fmt.Sprintf(" from_agg=%d prevmax=%d", aggID, prevMax),
+			calm:     true,
+		})
+	}
 }
 
 // pubWitnessCase is a fixed, minimal reproduction of "nothing is offered at the
@@ -1166,9 +1431,9 @@ func TestVerifC18(t *testing.T) {
 		int64(lnwallet.DustLimitForSize(len(c18P2WSH))),
 		int64(lnwallet.DustLimitForSize(len(c18P2TR))))
 
-	nFloat, nFF, nLong, nPub := 20, 10000, 40, 6000
+	nFloat, nFF, nLong, nPub, nAgg := 20, 10000, 40, 6000, 2000
 	if tier == "thorough" {
-		nFloat, nFF, nLong, nPub = 400, 400000, 1500, 250000
+		nFloat, nFF, nLong, nPub, nAgg = 400, 400000, 1500, 250000, 60000
 	}
 	for i := 0; i < nFloat; i++ {
 		c.floatCase(400)
@@ -1180,6 +1445,9 @@ func TestVerifC18(t *testing.T) {
 		c.ffCase(true)
 	}
 	c.pubWitnessCase()
+	for i := 0; i < nAgg; i++ {
+		c.aggCase()
+	}
 	for i := 0; i < nPub; i++ {
 		c.pubCase()
 	}
